@@ -503,6 +503,7 @@ class Env:
         first = self.call.get("abort")
         a = first is not None and i >= first
         self.trace.append(("poll", i, a, self.now()))
+        self.maybe_fault("abort_if", self.tick("abort_if"))
         return a
 
     def on_attempt_start(self, ctx):
